@@ -925,6 +925,20 @@ def _probe_misc(rng, tier):
     import odl
     T = odl.tomo
     out = []
+    # helical_geometry: the source travels exactly from the bottom to the top of the volume
+    for _ in range(2 if tier == 'quick' else 5):
+        lo = [round(rng.uniform(-2, -0.5), 2) for _ in range(3)]
+        hi = [round(rng.uniform(0.5, 2), 2) for _ in range(3)]
+        turns = rng.choice([1, 2, 3.5])
+        rp = ("import numpy as np, odl\nspace = odl.uniform_discr(%r, %r, [6, 6, 6])\n"
+              "g = odl.tomo.helical_geometry(space, 9.0, 3.0, num_turns=%r)\n"
+              "z0 = g.src_position(g.motion_params.min_pt[0])[2]; z1 = g.src_position(g.motion_params.max_pt[0])[2]\n"
+              "observed = [float(z0), float(z1)]; expected = [%r, %r]\nok = bool(np.allclose(observed, expected, atol=1e-9))\n"
+              % (lo, hi, turns, lo[2], hi[2]))
+        env = {}
+        exec(rp, env)
+        out.append(C.Probe(bool(env['ok']), 'helical-geometry-axial-range',
+                           'helical_geometry: the source height runs from min_z to max_z of the volume', rp))
     ap, dp1 = _parts(odl, 1)
     _, dp2 = _parts(odl, 2)
     # curved detectors with an arbitrary rotation axis (default detector axes are transformed by a rotation:
@@ -1107,14 +1121,45 @@ def probes(rng, tier):
     return out
 
 
-RULE = ('per geometry class: random constructor arguments (Pythagorean and generic integer axes / initial positions, '
-        'dyadic translations, radii incl. invalid ones, curved detectors, pitch, affine shift functions), built '
-        'directly / via frommatrix / via __getitem__, observed at angles that are rational points of the unit circle; '
-        'a case is distinct by its full argument tuple')
-ASSUMPTIONS = ['exact arithmetic (rounding out of scope); np.cos/np.sin/np.arccos/np.linalg.norm are the real functions',
-               'angles enter the model as (cos, sin) pairs on the unit circle']
-TRUSTED = ['C19/Model.v is a hand transcription of utility.py/detector.py/geometry.py/parallel.py/conebeam.py, '
-           'tied to the code by the correspondence only']
-LEVEL_TEXT = 'partial'
-LEVEL_NOTE = ''
-TECHNIQUE = 'Coq proof (ring/nsatz/nra at R) + in-Coq differential correspondence at rational circle points'
+RULE = ('5 case sets (utility functions, Parallel2d, Parallel3dAxis/Euler, FanBeam, ConeBeam). Per geometry class: random '
+        'constructor arguments -- Pythagorean (rational length, so every branch test is decided exactly) and generic '
+        'integer axes / initial positions / detector axes, zero vectors and bad radii (ValueError), inputs inside and just '
+        'outside the allclose window of transform_system, dyadic translations, flat / circular / cylindrical / spherical '
+        'detectors, pitch, offset, affine source and detector shift functions -- built directly, via frommatrix (rational '
+        'rotation or integer matrices, with and without translation column) and via __getitem__ (7 slices); observed: the '
+        'stored attributes and, at 2-4 (angle, detector parameter) points whose angles are rational points of the unit '
+        'circle, rotation_matrix, src_position, det_refpoint, det_point_position, det_to_src (both forms), det_axes, '
+        'surface, surface_deriv, surface_normal, surface_measure. A case is distinct by its full argument tuple.')
+ASSUMPTIONS = ['exact arithmetic: rounding is out of scope; np.cos/np.sin/np.arccos/np.linalg.norm/np.cross/einsum are the '
+               'real functions they name (cos(arccos x) = x, sin(arccos x) = sqrt(1 - x^2))',
+               'angles enter the model as (cos, sin) pairs on the unit circle plus, for the helical pitch, the angle value; '
+               'that the pair is the cosine/sine of that value is outside the model',
+               'the correspondence executes the model at a rational carrier that is exact up to denominators 10^36 and '
+               'rounds to 30 digits beyond (generic axes give nested irrational roots); comparison tolerance 1e-9',
+               'inputs on which floating-point rounding decides a branch (exact == 0 tests on rotated axes, the poles of '
+               'the spherical detector, arccos next to 1) are excluded from the correspondence and left to probes',
+               'NumPy broadcasting/shape mechanics of the vectorised entry points are validated by probes, not modelled',
+               'cone_beam_geometry/helical_geometry: only the detector extent formulas are modelled (not the Nyquist '
+               'sample counts, ceil, arctan)']
+TRUSTED = ['C19/Model.v: hand transcription of utility.py / detector.py / geometry.py / parallel.py / conebeam.py, tied to '
+           'the code by the correspondence only (no translator: the code is formulas, not tables)',
+           'C19/Corr.v: rounding rational carrier NQ and Qsqrt used to execute the model',
+           'harness/c19.py: flattening order of the observations on both sides']
+LEVEL_TEXT = ('Partial proof. Proved in Coq for ALL parameters (every axis, initial position, translation, radius, shift, '
+              'pitch, every angle on the unit circle and every detector parameter): the three rotation-matrix families '
+              '(2-d Euler, ZXZ Euler, Rodrigues with the stored unit axis) are orthonormal with determinant one, as are all '
+              'matrices returned by rotation_matrix_from_to/transform_system; every stored axis / src_to_det_init / '
+              'detector axis the constructors return is a unit vector (all five classes, all detector types); the detector '
+              'point is refpoint + R surface and the whole configuration at angle a is the rigid rotation about the '
+              'translation point (plus the pitch displacement along the axis) of an angle-independent configuration, so '
+              'detector distances equal intrinsic surface distances; det_to_src + det point = source position, unit length '
+              'when normalised; fan-beam source/detector circles; parallel rays share one unit direction orthogonal to the '
+              'rotated detector axes; normals of all five detector classes are unit and orthogonal to the surface '
+              'derivatives; circular/cylindrical/spherical surfaces lie on their circle/cylinder/sphere with tangent '
+              'derivatives of the stated lengths; parallel_beam_geometry covers the volume. Refuted (with repaired versions '
+              'proved): cone_beam_geometry/helical_geometry coverage, Parallel2dGeometry slicing. Validated only: '
+              'vectorised/broadcast evaluation, slicing and frommatrix of the other classes, 3-d factories.')
+LEVEL_NOTE = ('Model tied to /repo by an in-Coq differential correspondence (150 quick / 790 thorough cases, all classes, '
+              'constructors, frommatrix, __getitem__, error outcomes); 10 recorded defects of /repo (findings/C19.json) with '
+              'proposed diffs; axioms: classical reals + funext as printed.')
+TECHNIQUE = 'Coq proof (ring / nsatz / nra over R with sqrt) + in-Coq differential correspondence at rational circle points + property probes'
